@@ -139,6 +139,14 @@ func (c *Ctx) walkLoops() ([]*walkLoop, []string) {
 			}
 			w := &walkLoop{fn: f, loop: l, call: call, avp: av}
 			arg := call.Call.Args[bi]
+			for {
+				// a named byte-slice type (datatype.Grouped) sliced and then converted is the same bytes
+				if ct, ok := arg.(*ssa.ChangeType); ok && isByteSlice(ct.X.Type()) {
+					arg = ct.X
+					continue
+				}
+				break
+			}
 			headPhi := func(v ssa.Value) *ssa.Phi {
 				ph, ok := v.(*ssa.Phi)
 				if ok && ph.Block() == l.Head {
